@@ -743,6 +743,61 @@ def translations():
             return a[1], a[2], a[3], kw["atol"], kw["rtol"], kw["first_step"]
         return lsoda_args_n
 
+    # ---- the argument validation at the top of update_orientations: `bad` selects a malformed call
+    #         1: get_velocity_gradient not callable     2: the pathline's position entry not callable
+    #         3: pathline with two entries              4: pathline with four entries
+    #      each must raise ValueError BEFORE any user callable is evaluated, before LSODA is constructed, with the
+    #      stored history untouched (verified by the adapter); any other `bad`: the constructor arguments as above
+    def mk_update_args(n):
+        def update_args_n(bad, regime, phase, fabric, pars, Fd, prev_o, prev_f, t0, t1):
+            po, pf, ords = prev_o.view(GArr), prev_f.view(GArr), (regime, phase, fabric)
+            m, decoy = mk_mineral_hist(n, po, pf, ords)
+            cap, calls = {}, []
+
+            class _ArgsLSODA:
+                def __init__(self, *a, **kw):
+                    cap["a"], cap["kw"] = a, kw
+                    raise _Captured()
+
+            def gpos(t):
+                calls.append("position")
+
+            def gL(t, x):
+                calls.append("L")
+                return _garr(_np.zeros((3, 3)))
+
+            L_arg, pathline = gL, (t0, t1, gpos)
+            if bad == 1:
+                L_arg = 0.5
+            elif bad == 2:
+                pathline = (t0, t1, 0.5)
+            elif bad == 3:
+                pathline = (t0, t1)
+            elif bad == 4:
+                pathline = (t0, t1, gpos, None)
+            try:
+                with_lsoda(_ArgsLSODA, lambda: m.update_orientations(
+                    plain_params(pars[5], [pars[i] for i in range(5)]), Fd.view(GArr), L_arg, pathline))
+            except _Captured:
+                pass
+            except ValueError:
+                if "a" in cap:
+                    raise TranslatorUnsupported("ValueError after LSODA had been constructed")
+                if calls:
+                    raise TranslatorUnsupported("user callables are evaluated before the arguments are validated")
+                check_hist(m, decoy, po, pf, grown=False, ords=ords)
+                raise
+            except TypeError as e:
+                raise TranslatorUnsupported(f"a malformed call is not rejected by the argument validation "
+                                            f"(ValueError) but fails later with TypeError: {e}")
+            if "a" not in cap:
+                raise TranslatorUnsupported("update_orientations did not construct LSODA")
+            a, kw = cap["a"], cap["kw"]
+            check_ctor(a, kw, t0, t1)
+            check_hist(m, decoy, po, pf, grown=False, ords=ords)
+            return a[1], a[2], a[3], kw["atol"], kw["rtol"], kw["first_step"]
+        return update_args_n
+
     # ---- the caller's own atol / rtol / first_step replace the defaults; any further keyword
     #      (here max_step, min_step) is handed to LSODA unchanged
     def mk_lsoda_args_user(n):
@@ -1077,6 +1132,11 @@ def translations():
         register(f"init_user_n{n}", mk_init_user(n), [("o", "arr", (n, 3, 3)), ("f", "arr", (n,))],
                  f"k_init_user_n{n}")
         names += [f"init_default_n{n}", f"init_user_n{n}"]
+    register("update_args_n1", mk_update_args(1),
+             [("bad", "enum", None)] + ORDS + [("pars", "arr", (6,)), ("Fd", "arr", (3, 3)), ("prev_o", "arr", (1, 3, 3)),
+                                               ("prev_f", "arr", (1,)), ("t0", S, None), ("t1", S, None)],
+             "k_update_args_n1")
+    names.append("update_args_n1")
     register("lsoda_args_user_n1", mk_lsoda_args_user(1),
              [("Fd", "arr", (3, 3)), ("prev_o", "arr", (1, 3, 3)), ("prev_f", "arr", (1,)),
               ("t0", S, None), ("t1", S, None), ("uatol", S, None), ("urtol", S, None),
